@@ -1,5 +1,6 @@
 """C03 No NPU operation consumes memory that was not defined for it (structural clauses)."""
 import ast
+import re
 import copy
 
 from ..astutil import calls_in, call_name, norm, same_texts, try_fold, walk_no_nested
@@ -451,6 +452,13 @@ def run(repo, rep):
     rule_sub_schedule_merge(repo, rep)
     rep.clause("C03-v", "a PAD lowered to a concatenation writes the whole padded tensor: convert_pad_to_concat goes ahead only where the padding of every axis other than the concatenation axis is zero")
     rule_pad_to_concat_rows(repo, rep)
+    rep.clause("C03-x", "an operator outside every cascade gets the fallback cost whose SRAM use is accounted next to it (cost / estimate pairs of build_cascades use one table)")
+    rep.clause("C03-y", "the feature map of IFM2 is built from IFM2's own shape and tile offsets (operand index agreement inside create_feature_map calls)")
+    rule_round11(repo, rep)
+    rep.clause("C03-w", "producer and consumer address a brick-format tensor alike: the format is refused unless every operator's view equals the tensor shape [rule shared with C02-w]")
+    from . import c02 as _c02w
+
+    rep.run_borrowed(_c02w, {"C02-w": "C03-w"}, repo)
     rep.run_borrowed(c08, {"C08-f": "C03-g"}, repo)
 
 
@@ -750,3 +758,55 @@ def rule_pad_to_concat_rows(repo, rep):
     rep.check(bool(guards), "C03-v", site, "the PAD is turned into a concatenation only where the padding of every other axis is zero",
               "no returning test over the other rows of the paddings tensor precedes `op.type = Op.ConcatTFLite`: a PAD of depth *and* height / width ([[0,0],[1,1],[1,1],[4,4]]) becomes a depth concatenation "
               "of input-sized pieces - 864 bytes of the [1,10,10,24] result are never written and are read by the next operator")
+
+
+def rule_round11(repo, rep):
+    """(x) CascadeBuilder.build_cascades gives an operator that ends up outside every cascade the cost of the *fallback* schedule - whole
+    feature maps, one H stripe, weights buffered for that - and accounts the SRAM use of that same cost: in each block `cost[v] = T[v]` is
+    followed by `_estimate_sram_usage(v, U[v])` with T == U. Taking the striped reference cost for an operator without a cascade runs it in
+    several stripes whose weight slices are only moved in by the first.
+    (y) create_feature_map receives, for the operand it is called for, that operand's shape and tile offsets: when the tensor argument is
+    `cmd.ifm2_tensor` every `ifm_shapes[k]` / `tile_base_offsets_ifm[k]` argument has k = 1, for `cmd.ifm_tensor` k = 0."""
+    cb = repo.mod("cascade_builder")
+    fn = cb.func("CascadeBuilder.build_cascades")
+    site = "ethosu/vela/cascade_builder.py:CascadeBuilder.build_cascades"
+    n = 0
+    for blk_owner in ast.walk(fn):
+        for fld in ("body", "orelse"):
+            blk = getattr(blk_owner, fld, None)
+            if not isinstance(blk, list):
+                continue
+            for i, st in enumerate(blk):
+                if not (isinstance(st, ast.Assign) and isinstance(st.targets[0], ast.Subscript) and str(norm(st.targets[0].value)) == "cost" and isinstance(st.value, ast.Subscript)
+                        and str(norm(st.value.slice)) == str(norm(st.targets[0].slice))):
+                    continue
+                v, table = str(norm(st.targets[0].slice)), str(norm(st.value.value))
+                ests = [c for s2 in blk[i + 1:] for c in ast.walk(s2) if isinstance(c, ast.Call) and str(norm(c.func)) == "self._estimate_sram_usage" and len(c.args) == 2 and str(norm(c.args[0])) == v]
+                for c in ests:
+                    n += 1
+                    used = str(norm(c.args[1].value)) if isinstance(c.args[1], ast.Subscript) else str(norm(c.args[1]))
+                    rep.check(used == table, "C03-x", site, f"`cost[{v}] = {table}[{v}]` and the SRAM estimate that follows use the same cost table",
+                              f"the estimate uses `{used}[{v}]`: the operator is given the striped reference cost without being in a cascade - its depth-sliced weights are moved in for the first H stripe only and later stripes read "
+                              "another slice from the buffer")
+    if n < 2:
+        raise AnalysisError(f"build_cascades: {n} cost / estimate pairs found")
+    hm = repo.mod("high_level_command_to_npu_op")
+    m_ = 0
+    for q, f in hm.functions.items():
+        for c in ast.walk(f):
+            if not (isinstance(c, ast.Call) and (call_name(c) or "") == "create_feature_map" and c.args):
+                continue
+            a0 = str(norm(c.args[0]))
+            want = 1 if a0.endswith("ifm2_tensor") else (0 if a0.endswith("ifm_tensor") else None)
+            if want is None:
+                continue
+            idx = [(str(norm(x.value)), x.slice.value) for a in list(c.args[1:]) + [k.value for k in c.keywords] for x in ast.walk(a)
+                   if isinstance(x, ast.Subscript) and isinstance(x.slice, ast.Constant) and isinstance(x.slice.value, int) and re.search(r"(ifm_shapes|tile_base_offsets_ifm|read_offsets|read_shapes)$", str(norm(x.value)))]
+            if not idx:
+                continue
+            m_ += 1
+            wrong = [f"{nm}[{k}]" for nm, k in idx if k != want]
+            rep.check(not wrong, "C03-y", f"ethosu/vela/high_level_command_to_npu_op.py:{q}", f"create_feature_map({a0}, ..) takes shape and tile offsets of operand {want}",
+                      f"{wrong}: the second operand is addressed with the first operand's shape - a broadcast IFM2 ([1,8,12,1]) is read with the strides of [1,8,12,16], far outside its own tensor")
+    if m_ < 2:
+        raise AnalysisError(f"create_feature_map calls with operand-indexed arguments: {m_} found")
